@@ -14,7 +14,7 @@ ASSUMPTIONS = ['decimal typed fields and non-canonical date strings are outside 
 
 def gen(rng, tier):
     cases = []
-    n = 1500 if tier == 'quick' else 30000
+    n = 3600 if tier == 'quick' else 45000
     pk = iu.packaged()
     for i in range(n):
         codec = iu.CODECS[i % len(iu.CODECS)]
@@ -26,7 +26,7 @@ def gen(rng, tier):
         else:
             m = iu.rand_message(rng, pk, codec)
             cases.append({'cfg': None, 'codec': codec, 'hex': hexbm, 'msg': iu.dict_text(m)})
-    cases.extend(collision_cases(rng, 60 if tier == 'quick' else 1500))
+    cases.extend(collision_cases(rng, 180 if tier == 'quick' else 3000))
     # every configured element alone, at boundary lengths
     for b in sorted(int(k) for k in pk if int(k) >= 2):
         for j in range(3 if tier == 'quick' else 40):
